@@ -5,7 +5,7 @@
 -/
 import Rbgp.Rib.SpecC15
 import Rbgp.Rib.ObsFacts
-import Rbgp.Rib.InvInsert
+import Rbgp.Rib.CtrFacts
 namespace Rbgp.Rib.C15
 open SpecC15
 
@@ -96,6 +96,12 @@ theorem obs_recv (t : Table) (f : Fam) (h : RibInv c g t.flags f (t.rib f)) (a :
   apply List.filter_congr
   intro nd hnd
   exact any_congr_mem fun e he => fromAddr_dentry t.flags a ((h.dest nd hnd).srcOk e he).1
+
+/-- the checker's per-session recount is `sessCount` -/
+theorem obs_sess (t : Table) (f : Fam) (h : RibInv c g t.flags f (t.rib f)) (i : Nat) :
+    countPrefixes (fun e => e.src == i) (famObs t f).dests = sessCount i (t.rib f) := by
+  rw [countPrefixes_perm _ (famObs_dests_perm t f h)]
+  rfl
 
 theorem obs_acc (t : Table) (f : Fam) (h : RibInv c g t.flags f (t.rib f)) (a : Nat) :
     countPaths (fun e => fromAddr c a e && !e.filtered) (famObs t f).dests = accCount a (t.rib f) := by
